@@ -465,7 +465,9 @@ def build_items(tier):
     for kind, tree in sources:
         if kind != "dir" or count_nested(tree) > 3:
             continue
-        for names in ({"a": "old; new", "b": "x; Type=dir; y"}, {"a": "a -> b", "b": "Size=1;z"}, {"a": "~", "b": "x y  z"}):
+        for names in ({"a": "old; new", "b": "x; Type=dir; y"}, {"a": "a -> b", "b": "Size=1;z"}, {"a": "~", "b": "x y  z"},
+                      # siblings whose names differ in case only, or in their Unicode normalisation form only
+                      {"a": "README", "b": "readme"}, {"a": "caf\u00e9", "b": "cafe\u0301"}):
             for fallback in (False, True):
                 for op, dest in (("upload", "x"), ("download", "x"), ("list", "abs"), ("list", "rel"), ("remove", "")):
                     cases.append({"op": op, "kind": kind, "tree": tree, "dest": dest, "write_into": False, "cwd": "/",
@@ -501,7 +503,7 @@ def run(tier, seed, t0):
         items = items[k:] + items[:k]
     part = report.merge_all(report.pmap(work, items) + [dash_work(False), dash_work(True)])
     bounds = {"dash_names": "list / download / remove of a directory named -x by its bare relative name (MLSD and LIST-only)",
-              "sources": nsrc, "max_nodes": 4 if tier == "quick" else 5, "names": ["a", "b"], "separator_names": ["old; new", "x; Type=dir; y", "a -> b", "Size=1;z", "~", "x y  z"], "destinations": DESTS, "write_into": [False, True],
+              "sources": nsrc, "max_nodes": 4 if tier == "quick" else 5, "names": ["a", "b"], "separator_names": ["old; new", "x; Type=dir; y", "a -> b", "Size=1;z", "~", "x y  z"], "near_duplicate_names": ["README / readme", "composed / decomposed café"], "destinations": DESTS, "write_into": [False, True],
               "remote_cwd": ["/", "/w"], "block_sizes": [1, 8192], "servers": ["MLSD", "LIST fallback"], "encodings": ["utf-8", "latin-1 with non-ASCII names (trees <= 3 nodes)"],
               "old_entries": "LIST-only server, entries dated 2024-02-29, 2023-12-31 23:59:59, 1971, 2099, 2000-02-29 seen from 2025-06-01",
               "short_reading_backends": "read() capped at 1 or 3 bytes on the client's and the server's backend (trees <= 3 nodes)",
